@@ -42,14 +42,35 @@ Definition append_op_fail (c : config) (chunks : list bytes) (s : state)
     let '(s2, ev, fire) := process_fail c s1 in
     (s2, EWrote (concat chunks) :: ev, fire).
 
+(* A roller that does ALL its work and then reports failure (a user Roll impl with a failing post-processing step
+   after the rename; a roller whose last action - say a notification - fails): `log.roll()` has emptied the writer
+   slot, the rotation has happened, `roller.roll(..)?` propagates the Err out of append.  The directory and the
+   appender state are those of a successful roll; only the call's result differs, and under a pre-processing
+   trigger the early return skips the record. *)
+Definition append_op_fail_after (c : config) (chunks : list bytes) (s : state)
+  : state * list event * bool :=
+  let s0 := get_writer s in
+  if is_pre (trig c) then
+    let '(s1, ev) := process c s0 in
+    match writer s1 with
+    | None => (s1, ev, true)
+    | Some _ => (encode_flush chunks (get_writer s1), ev ++ [EWrote (concat chunks)], false)
+    end
+  else
+    let s1 := encode_flush chunks s0 in
+    let '(s2, ev) := process c s1 in
+    (s2, EWrote (concat chunks) :: ev, match writer s2 with None => true | Some _ => false end).
+
 Inductive xop : Type :=
 | XOp (o : op)                          (* Append / Restart with a working roller *)
-| XAppendFail (chunks : list bytes)     (* append; the roller fails if it is called *).
+| XAppendFail (chunks : list bytes)     (* append; the roller fails if it is called *)
+| XAppendFailAfter (chunks : list bytes) (* append; the roller, if called, rotates and then reports failure *).
 
 Definition xstep (c : config) (o : xop) (s : state) : state * list event * bool :=
   match o with
   | XOp o' => (fst (step c o' s), snd (step c o' s), false)
   | XAppendFail chunks => append_op_fail c chunks s
+  | XAppendFailAfter chunks => append_op_fail_after c chunks s
   end.
 
 (* run, collecting per op the events and whether the call returned Err *)
